@@ -202,17 +202,42 @@ func (c *Ctx) checkValidateBlockBodyHash() {
 	})
 	// loop: i from 1 while i < p3, hashing raw[i]
 	okLoop, okElem := false, false
-	for _, ef := range edgeFacts(fn) {
-		if strings.HasPrefix(ef.Fact, "phi(") && strings.HasSuffix(ef.Fact, " < p3") && strings.Contains(ef.Fact, "1") {
-			okLoop = true
+	// the loop may live in a helper that receives the decoded array and the segment count: its facts and operands
+	// are read with the helper's parameters replaced by the caller's arguments
+	type unit struct {
+		f    *ssa.Function
+		args []ssa.Value
+	}
+	units := []unit{{fn, nil}}
+	for _, ci := range allCalls(fn) {
+		if h := samePkgHelper(fn, ci.Common()); h != nil && h.Parent() == nil {
+			units = append(units, unit{h, ci.Common().Args})
 		}
 	}
-	for _, ci := range allCalls(fn) {
-		if strings.HasSuffix(calleeName(ci.Common()), "blake2b.Sum256") {
-			d := desc(ci.Common().Args[0])
-			if strings.Contains(d, "RawMessage[phi(") {
-				okElem = true
+	for _, u := range units {
+		sub := func(s string) string {
+			if u.args == nil {
+				return s
 			}
+			return substParams(s, u.args)
+		}
+		loop, elem := false, false
+		for _, ef := range edgeFacts(u.f) {
+			f := sub(ef.Fact)
+			if strings.HasPrefix(f, "phi(") && strings.HasSuffix(f, " < p3") && strings.Contains(f, "1") {
+				loop = true
+			}
+		}
+		for _, ci := range allCalls(u.f) {
+			if strings.HasSuffix(calleeName(ci.Common()), "blake2b.Sum256") {
+				d := sub(desc(ci.Common().Args[0]))
+				if strings.Contains(d, "RawMessage[phi(") {
+					elem = true
+				}
+			}
+		}
+		if loop && elem {
+			okLoop, okElem = true, true
 		}
 	}
 	c.Check(okLoop && okElem, "segments-range", key, fn.Pos(), "each of the elements 1..n-1 is hashed", "the segment loop does not cover elements 1..n-1 of the block array")
@@ -300,11 +325,11 @@ func (c *Ctx) checkByronProof() {
 	c.Check(parts["merkle"] && parts["witnesses"], "byron-proof-parts", ssaFuncKey(tp)+":hashes", tp.Pos(), "merkle root of the tx bodies and hash of the witness list are checked", fmt.Sprintf("tx proof binding incomplete: %v", sortedKeys(parts)))
 	// leaves are the stored body bytes
 	okLeaves := false
-	for _, ci := range allCalls(tp) {
-		if calleeName(ci.Common()) == "append" && strings.Contains(desc(ci.Common().Args[1]), "call:") {
-		}
-		if strings.HasSuffix(calleeName(ci.Common()), ".Cbor") && strings.Contains(desc(ci.Common().Args[0]), ".Body") {
-			okLeaves = true
+	for _, f := range closureFuncs(tp, 2) {
+		for _, ci := range allCalls(f) {
+			if strings.HasSuffix(calleeName(ci.Common()), ".Cbor") && strings.Contains(desc(ci.Common().Args[0]), ".Body") {
+				okLeaves = true
+			}
 		}
 	}
 	c.Check(okLeaves, "byron-proof-parts", ssaFuncKey(tp)+":leaves", tp.Pos(), "merkle leaves are the transactions' preserved body bytes", "merkle leaves are not the stored transaction body bytes")
